@@ -2,6 +2,10 @@
 import random
 import dbggen, dbgcommon
 
+# observations the property does not speak about: a difference in these alone breaks the correspondence
+# but is not an input on which the property fails (reported with no-failing-input-found)
+AUX = ('debugger output differs', 'cmds differs')
+
 ASSUMPTIONS = [
     "that RunState::clone really copies the boxed memory and nothing aliases initial_state is a fact about Rust ownership; it is covered by the runs (full 65,536-word comparison after every session), not by the theorem",
 ]
@@ -49,7 +53,7 @@ def correspondence(ctx, violations, known_hits):
     rnd, specs, fresh = gen(ctx.tier, ctx.seed)
     cases, tags = dbgcommon.make_cases(rnd, specs)
     profiles = ("debug",) if ctx.tier == "quick" else ("debug", "release")
-    r = dbgcommon.run_dbg_cases(ctx, cases, tags, violations, profiles,
+    r = dbgcommon.run_dbg_cases(ctx, cases, tags, violations, profiles, aux=AUX,
                                 note="model: reset = the saved initial state, which nothing ever writes (C12 theorems)")
     ri, _ = r["results"]["debug"]
     direct, bad = 0, 0
